@@ -184,6 +184,8 @@ impl<T> Copy for Link<T> {}
 impl<T> PartialEq for Link<T> {
     #[inline]
     fn eq(&self, other: &Self) -> bool {
+        #[cfg(cactusref_verif)]
+        crate::verif::count_link_op(0);
         self.kind == other.kind && ptr::eq(self.as_ptr(), other.as_ptr())
     }
 }
@@ -193,6 +195,8 @@ impl<T> Eq for Link<T> {}
 impl<T> Hash for Link<T> {
     #[inline]
     fn hash<H: Hasher>(&self, state: &mut H) {
+        #[cfg(cactusref_verif)]
+        crate::verif::count_link_op(1);
         self.ptr.hash(state);
         self.kind.hash(state);
     }
